@@ -216,6 +216,39 @@ func runC11(c *Ctx) {
 			rep.EvalTrivial(fmt.Sprintf("%s/badkey/%d", m.name, n))
 		}
 	}
+	// many keys, then the first ones again (serial, under one IV): a helper may remember something per key; what it answers
+	// for a key seen thousands of keys ago must still be the standard mode
+	{
+		rk := c.Rng("many-keys")
+		iv := rk.Bytes(16)
+		sm4.SetIV(iv)
+		nKeys := c.Q(3000, 60000)
+		keys := make([][]byte, nKeys)
+		check := func(i int, phase string) bool {
+			m := modes[i%len(modes)]
+			pt := rk.Bytes(1 + i%40)
+			want := m.want(keys[i], iv, ref.PKCS7Pad(pt, 16))
+			var ct, back []byte
+			var e1, e2 error
+			if pi := mon.Guard(func() {
+				ct, e1 = m.f(keys[i], pt, true)
+				back, e2 = m.f(keys[i], want, false)
+			}); pi != nil || e1 != nil || e2 != nil || !bytes.Equal(ct, want) || !bytes.Equal(back, pt) {
+				rep.Violation("C11/"+m.name+"/many-keys/differs-from-standard-mode/"+phase, fmt.Sprintf("key %d of %d: %v %v %v", i, nKeys, pi, e1, e2), map[string]interface{}{"key": mon.Hex(keys[i]), "iv": mon.Hex(iv), "plaintext": mon.Hex(pt), "key_index": i})
+				return false
+			}
+			return true
+		}
+		ok := true
+		for i := 0; i < nKeys && ok; i++ {
+			keys[i] = rk.Bytes(16)
+			ok = check(i, "first-use")
+		}
+		for i := 0; i < nKeys && ok; i += 1 + i/16 {
+			ok = check(i, "revisit-after-all-other-keys")
+		}
+		rep.Eval("many-keys/then-revisit")
+	}
 	// restore the default IV for anything else in this process
 	sm4.SetIV(make([]byte, 16))
 }
